@@ -162,3 +162,44 @@ Definition vec_contains (v : list N) (x : N) : bool := existsb (N.eqb x) v.
 Definition is_none_of {A} (o : option A) : bool := match o with None => true | Some _ => false end.
 Definition is_some_of {A} (o : option A) : bool := match o with None => false | Some _ => true end.
 Definition is_empty_of {A} (v : list A) : bool := match v with [] => true | _ => false end.
+
+(** * Maps and sets with opaque or integer keys
+
+    [Map<K, V>] / [OrderedMap<K, V>] (hashbrown::HashMap, BTreeMap) are association lists with at
+    most one entry per key ([N] for the key: an identity or an integer); [UnorderedSet<K>] /
+    [OrderedSet<K>] are lists without repetition.  The position of an entry in the list carries no
+    meaning: whenever a translated function *iterates* ([for x in m.iter()], [.keys()], [.values()]
+    in a loop), the elements are visited in the order [ord l] for an uninterpreted [ord] that the
+    theorems only know to be a permutation - for a hash map the real order is arbitrary, and for an
+    ordered map over opaque keys the key order is not expressible.  [iter().sum()] of u64 values does
+    not go through [ord]: its outcome (value, wrap, or overflow panic) is the same for every order
+    (Proofs/RustFacts.v, [sum_p_perm]). *)
+Definition rmap (V : Type) : Type := list (N * V).
+
+Fixpoint map_get {V} (m : rmap V) (k : N) : option V :=
+  match m with
+  | [] => None
+  | (k', v) :: r => if k' =? k then Some v else map_get r k
+  end.
+Definition map_contains {V} (m : rmap V) (k : N) : bool := is_some_of (map_get m k).
+Definition map_remove {V} (m : rmap V) (k : N) : rmap V := filter (fun e => negb (fst e =? k)) m.
+(** [m.insert(k, v)]: the entry for [k] is replaced or added *)
+Definition map_insert {V} (m : rmap V) (k : N) (v : V) : rmap V := (k, v) :: map_remove m k.
+Definition map_keys {V} (m : rmap V) : list N := map fst m.
+Definition map_values {V} (m : rmap V) : list V := map snd m.
+
+Definition set_contains (s : list N) (k : N) : bool := existsb (N.eqb k) s.
+Definition set_insert (s : list N) (k : N) : list N := if set_contains s k then s else s ++ [k].
+(** [s.extend(iterator)]: every element is inserted *)
+Definition set_extend (s : list N) (l : list N) : list N := fold_left set_insert l s.
+
+(** [iter.sum::<u64>()]: [+] from 0, overflow as for [+] *)
+Fixpoint sum_from (p : profile) (l : list N) (acc : N) : trap N :=
+  match l with
+  | [] => Val acc
+  | x :: r => s <- add_p p acc x ;; sum_from p r s
+  end.
+Definition sum_p (p : profile) (l : list N) : trap N := sum_from p l 0.
+
+(** [opt.map(|x| f x)] is [option_map]; [v.push(x)] appends *)
+Definition vec_push {A} (v : list A) (x : A) : list A := v ++ [x].
